@@ -28,6 +28,16 @@ def dag_menu(tier):
     for vs in ((0, 0, 0, 0), (1, 2, 0, 3), (3, 1, 2, 1), (2, 3, 3, 0)):
         out.append(("diamond", dag("diamond", [1, 2, 3, 1], list(vs))))
     out.append(("chain3", dag("chain3", [1, 0, 2], [3, 1])))
+    # transfers that are still in flight when the successor is allocated
+    # (volume/bandwidth well above the one-step allocation latency), several
+    # at once, the slowest not listed last
+    for v1, v2 in ((8, 3), (3, 8), (5, 5), (8, 0)):
+        out.append(("join-long", dag("join", [1, 1, 1], [v1, v2])))
+        out.append(("join-long", dag("join", [2, 1, 2], [v1, v2])))
+    for vs in ((1, 2, 8, 3), (0, 0, 3, 8), (2, 2, 5, 5)):
+        out.append(("diamond-long", dag("diamond", [1, 1, 1, 1], list(vs))))
+    out.append(("wjoin-long", dag("wjoin", [1, 1, 1, 1], [8, 5, 3])))
+    out.append(("wjoin-long", dag("wjoin", [1, 2, 1, 1], [3, 8, 5])))
     if tier == "thorough":
         for vs in itertools.product((0, 1, 3), repeat=2):
             out.append(("chain3", dag("chain3", [2, 1, 1], list(vs))))
